@@ -61,13 +61,17 @@ pub fn extract_field_content(input: &str, tag: &str) -> Option<(String, usize)> 
     // Clean up the content (remove trailing newlines)
     let content = raw_content.trim_end_matches('\n').trim_end_matches('\r');
 
+    // Field parsers split multi-line content on '\n': hand them LF line ends even when
+    // the message uses CRLF, otherwise every line but the last keeps a trailing '\r'
+    let content = content.replace("\r\n", "\n");
+
     // Calculate consumed characters including the newline after the content if present
     let consumed = field_start
         + field_marker.len()
         + raw_content_len
         + if has_trailing_newline { 1 } else { 0 };
 
-    Some((content.to_string(), consumed))
+    Some((content, consumed))
 }
 
 /// Find the boundary of the next field
